@@ -227,7 +227,12 @@ func (d *dsys) compare(o op, full bool) string {
 			pc := pg.cells[[2]int{x, y}]
 			if covered {
 				covered = false
-				continue // second column of a wide rune: what the page holds there is not fixed
+				// second column of a wide rune: what the page holds there is not fixed, but it
+				// must not be painted in a Show in which neither it nor the wide rune changed
+				if !full && pc.stamp == pg.stamp && pc.drawn && !sc.ChangedSince && !d.sh.At(x-1, y).ChangedSince {
+					return fmt.Sprintf("overdraw: cell (%d,%d), covered by the wide rune to its left, was drawn although nothing changed since the previous Show", x, y)
+				}
+				continue
 			}
 			r, wd := shadow.Shown(sc.R)
 			if wd == 2 {
